@@ -19,6 +19,7 @@ package main
 
 import (
 	"fmt"
+	"math/big"
 	"os"
 	"reflect"
 	"sort"
@@ -27,6 +28,7 @@ import (
 	codectypes "github.com/cosmos/cosmos-sdk/codec/types"
 	sdk "github.com/cosmos/cosmos-sdk/types"
 	"github.com/cosmos/gogoproto/proto"
+	"github.com/ethereum/go-ethereum/common"
 
 	"fxverif/lib"
 )
@@ -42,8 +44,11 @@ type harness struct {
 	sigs  map[string]int
 	only  map[string]bool
 
-	anteSrc  anteSource     // decorator order read from ante/handler_options.go of the tree under check
-	forceLen map[string]int // precompile stage: forced lengths of array arguments (by ABI input name)
+	anteSrc    anteSource                // decorator order read from ante/handler_options.go of the tree under check
+	forceUint  map[string]*big.Int       // precompile stage: forced uint256 arguments (by ABI input name)
+	forceAddr  map[string]common.Address // precompile stage: forced address arguments
+	tokenAddrs []common.Address          // ERC20 contracts with a registered token pair
+	forceLen   map[string]int            // precompile stage: forced lengths of array arguments (by ABI input name)
 }
 
 // fail registers a monitor failure; one Failure per signature (the first replay is kept), occurrences counted.
@@ -109,6 +114,9 @@ func main() {
 	}
 	if h.want("model") {
 		h.stageModel()
+	}
+	if h.want("confirms") {
+		h.stageConfirms()
 	}
 	h.replayKnown()
 	if h.want("corpus") {
